@@ -17,9 +17,10 @@ func TestVerif(t *testing.T) {
 			"Each case is run against content.ReadAll, content.FetchAll, content.NewVerifyReader (every sequence of 4 calls over {Read(1),Read(2),Read(8),Verify} [thorough: 5 calls for the chunkings without 0-byte read / joined end]), ioutil.CopyBuffer (4 writer/buffer variants), and Push on a fresh cas.Memory, memory.Store, " +
 			"LimitedStorage(limit=Size-1/Size/Size+1), oci.Storage, oci.Store, file.Store named (into an empty directory, and over a longer file already at the name's path; after success the file must hold exactly the named bytes), file.Store named directory layer (unpack annotation; the enumerated bytes are never a valid archive, so the push fails during or after verification), file.Store unnamed (memory fallback and OCI fallback), and through cas.Proxy (no limit, limit=Size-1/Size/Size+1; FetchAll and read-to-EOF consumers; cache fill + second fetch; each case runs in its own testing/synctest bubble, where a virtual-time timer can only fire when every goroutine is blocked for ever, so a fetch that never returns is a deterministic verdict). " +
 			"restore: the file store's other way of making content visible - a manifest naming stored content under a second file name (3 contents x layer size {right,-1,+1,0,7} x digest {right, unknown} x first file {untouched, changed on disk, truncated}): the second name may become visible only if the bytes copied are exactly what the layer descriptor says. " +
+			"vreader: good content handed to Push through a content.VerifyReader of the same descriptor from which k = 0..len bytes were read before (or everything, verified): k = 0 is an ordinary push, k > 0 must fail and leave nothing visible. " +
 			"Oracle (hand-computed sha256/sha512 of the generator's own bytes): Push may return nil only if the stream holds at least Size bytes and the first Size bytes hash to Digest (Size>=0, digest well-formed and supported); after a failed such push Exists is false, Fetch fails (for a named descriptor also when asked with the bare descriptor of the same digest) and blobs/ has no new regular file; " +
 			"data handed back without error equals the named content, and bytes beyond Size are an error for ReadAll/FetchAll/VerifyReader/CopyBuffer. Not judged (counted as note:*): refusing good content, Push accepting/refusing bytes beyond Size, reader errors after Size bytes, ingest/ leftovers. " +
-			"concurrent: 2-3 goroutines pushing {good, wrong bytes, early EOF, reader error, extra byte} under one digest (+ an observer fetching twice) into 8 store kinds under every schedule within D<=3 deviations around 3 base schedulers and P<=2 [P<=3] preemptions around the 2 non-preemptive ones for two pushers, D<=2 with an observer and for three pushers; bad pushes must fail, every successful Fetch (during or after) must hand back exactly the good bytes, nothing visible / no blob file if every push failed, every file under blobs/ hashes to its name. " +
+			"concurrent: 2-3 goroutines pushing {good, wrong bytes, early EOF, reader error, extra byte} under one digest (+ an observer probing Exists and Fetch twice; with only bad pushes under way nothing may be visible at any moment) into 8 store kinds under every schedule within D<=3 deviations around 3 base schedulers and P<=2 [P<=3] preemptions around the 2 non-preemptive ones for two pushers, D<=2 with an observer and for three pushers; bad pushes must fail, every successful Fetch (during or after) must hand back exactly the good bytes, nothing visible / no blob file if every push failed, every file under blobs/ hashes to its name. " +
 			"non-trivial = distinct (target, content, descriptor, stream) other than exact content from a cleanly ending reader, and distinct non-default schedules",
 		Assumptions: []string{
 			"stores are fresh per case (history dependence is C06's subject); media type is application/octet-stream",
@@ -39,7 +40,7 @@ func jobs(tier string) []driver.Job {
 	// first, followed by a wave of sample-free sequential jobs, then the long
 	// concurrent jobs so that the tail of the run is short.
 	out = append(out, sampleJob(sp))
-	out = append(out, restoreJob())
+	out = append(out, restoreJob(), vreaderJob())
 	seq := seqJobs(sp)
 	var rest []driver.Job
 	for _, j := range seq {
